@@ -13,6 +13,7 @@ NULL = -1
 EMBED = {
     "int": [-5, 0, 7, 1000, 2 ** 40],
     "int2": [-(2 ** 62), -1, 0, 1, 2 ** 62],
+    "int3": [2 ** 60, 2 ** 60 + 1, 2 ** 60 + 2, 2 ** 60 + 3, 2 ** 60 + 4],     # neighbours far above 2^53 (not separable as doubles)
     "u64": [0, 1, 2 ** 31, 2 ** 63 + 5, 2 ** 64 - 2],
     "u64s": [0, 1, 2 ** 31, 2 ** 40, 2 ** 62],        # u64 values that also fit i64
     "float": [-2.5, 0.5, 1.25, 3.75, 1.0e10],
@@ -27,11 +28,11 @@ EMBED = {
     "datetime2": [1_700_000_000, 1_700_001_800, 1_700_003_600, 1_700_000_000 + 3 * 86400, 1_700_000_000 + 5 * 86400],
 }
 SCHEMA_TYPE = {
-    "int": '"int"', "int2": '"int"', "u64": '"u64"', "u64s": '"u64"', "float": '"float"', "floati": '"float"',
+    "int": '"int"', "int2": '"int"', "int3": '"int"', "u64": '"u64"', "u64s": '"u64"', "float": '"float"', "floati": '"float"',
     "string": '"string"', "string2": '"string"', "enum": '["v0", "v1", "v2", "v3"]', "bool": '"bool"',
     "datetime": '"datetime"', "datetime2": '"datetime"', "numid": '"int"', "numid_opt": '"int | null"',
 }
-ORDERED = {"numid", "numid_opt", "int", "int2", "u64", "u64s", "float", "floati", "string", "string2", "datetime", "datetime2"}
+ORDERED = {"numid", "numid_opt", "int", "int2", "int3", "u64", "u64s", "float", "floati", "string", "string2", "datetime", "datetime2"}
 
 
 def lit(kind, v):
